@@ -346,6 +346,20 @@ Proof.
     split; [now apply (items_of_delete_ns i sh r)|now apply ordered_delete].
 Qed.
 
+Lemma step_items o sh : items_of (fst (step o sh)) = items_of sh.
+Proof.
+  destruct o; simpl.
+  - apply items_of_setitem.
+  - apply items_of_delitem.
+  - apply items_of_insert.
+  - apply items_of_insert.
+  - unfold insert_text. destruct (Nat.ltb _ _); [reflexivity|]. destruct (dhas (view sh) p); [reflexivity|apply items_of_insert].
+  - unfold insert_text. destruct (Nat.ltb _ _); [reflexivity|]. destruct (dhas (view sh) p); [reflexivity|apply items_of_insert].
+  - destruct (nth_error sh i) as [[r| | | |]|] eqn:E; try reflexivity. now apply (items_of_delete_ns i sh r).
+Qed.
+Lemma run_items ops : forall sh, items_of (run ops sh) = items_of sh.
+Proof. induction ops as [|o t IH]; intros sh; simpl; [reflexivity|]. now rewrite IH, step_items. Qed.
+
 Lemma run_frame ops : forall sh,
   ordered sh = true -> items_of (run ops sh) = items_of sh /\ ordered (run ops sh) = true.
 Proof.
@@ -603,12 +617,12 @@ Proof.
 Qed.
 
 Lemma run_count u ops : forall sh,
-  ordered sh = true -> used u sh = true -> 1 <= cnt u sh ->
+  used u sh = true -> 1 <= cnt u sh ->
   used u (run ops sh) = true /\ 1 <= cnt u (run ops sh).
 Proof.
-  induction ops as [|o t IH]; intros sh Ho Hu Hn; simpl; [now split|].
-  destruct (step_frame o sh Ho) as [Hi Ho']. apply IH; [exact Ho'| |now apply step_count].
-  rewrite used_items, Hi, <- used_items. exact Hu.
+  induction ops as [|o t IH]; intros sh Hu Hn; simpl; [now split|].
+  apply IH; [|now apply step_count].
+  rewrite used_items, step_items, <- used_items. exact Hu.
 Qed.
 
 Lemma cnt_In u sh : 1 <= cnt u sh <-> exists r, In r (nsl sh) /\ uri r = u.
@@ -701,13 +715,12 @@ Lemma undeclared_rule_dropped d e sh k p n its t :
   resolve_all d its = None /\ parse_loop d e sh (SStyle its :: t) = parse_loop d 3 sh t.
 Proof. intros Hin Hd. pose proof (undeclared_rejected d k p n its Hin Hd) as H. split; [exact H|]. simpl. now rewrite H. Qed.
 
-Lemma pairs_frame ops sh : ordered sh = true -> pairs (run ops sh) = pairs sh.
-Proof. intros Ho. unfold pairs. now rewrite (proj1 (run_frame ops sh Ho)). Qed.
+Lemma pairs_frame ops sh : pairs (run ops sh) = pairs sh /\ items_of (run ops sh) = items_of sh.
+Proof. unfold pairs. rewrite run_items. now split. Qed.
 
-Lemma pairs_frame_parsed stmts ops :
-  pairs (run ops (fst (parse stmts))) = pairs (fst (parse stmts)) /\
-  items_of (run ops (fst (parse stmts))) = items_of (fst (parse stmts)).
-Proof. split; [apply pairs_frame, parse_ordered|apply run_frame, parse_ordered]. Qed.
+(* parsed sheets keep every @namespace rule in front of every rule set / @media block, through any history *)
+Lemma order_kept stmts ops : ordered (run ops (fst (parse stmts))) = true.
+Proof. apply run_frame, parse_ordered. Qed.
 
 Lemma ns_rule_keeps_uri_parsed stmts ops r :
   In r (nsl (run ops (fst (parse stmts)))) -> ser_ns r = Some (prefix r, uri r) /\ In (NUri (uri r)) (items r).
@@ -720,14 +733,13 @@ Proof.
   intros Hn Hu Hc. simpl. unfold delete_rule. rewrite Hn. unfold can_delete. unfold cnt in Hc. rewrite Hu, Hc. simpl. auto.
 Qed.
 
-Lemma used_uri_stays_declared stmts ops k u n :
-  let sh := fst (parse stmts) in
+Lemma used_uri_stays_declared sh ops k u n :
   In (IPair k (UStr u) n) (items_of sh) -> (exists r, In r (nsl sh) /\ uri r = u) ->
   In (IPair k (UStr u) n) (items_of (run ops sh)) /\ exists r, In r (nsl (run ops sh)) /\ uri r = u.
 Proof.
-  intros sh Hin Hd. split.
-  - unfold sh. now rewrite (proj2 (pairs_frame_parsed stmts ops)).
-  - apply cnt_In. apply cnt_In in Hd. apply (run_count u ops sh); [apply parse_ordered|now apply (pair_used k u n)|exact Hd].
+  intros Hin Hd. split.
+  - now rewrite run_items.
+  - apply cnt_In. apply cnt_In in Hd. apply (run_count u ops sh); [now apply (pair_used k u n)|exact Hd].
 Qed.
 
 Lemma view_matches_clean sh :
